@@ -31,7 +31,7 @@ ASSUMPTIONS = [
     'the counts "the refinement chose" are the targets handed to the reassignment step, observed '
     'by wrapping plinio.methods.mps.utils._reassign_precisions at its call boundary',
 ]
-REQUIRED_MONITORS = ['c20.reassign_direct', 'c20.reassign_insitu', 'c20.e2e']
+REQUIRED_MONITORS = ['c20.chosen_is_cheapest', 'c20.reassign_direct', 'c20.reassign_insitu', 'c20.e2e']
 MIN_NONTRIVIAL = {'quick': 400, 'thorough': 2000}
 EXHAUSTIVE = {'quick': False, 'thorough': False}
 EXHAUSTIVE_NOTE = 'thorough: grid matrices up to 3x3 (and 2x4) with all compositions are complete; 3x4 is sampled'
@@ -65,6 +65,10 @@ def cases(tier, seed):
         cs.append({'kind': 'random', 'seed': seed * 7919 + i, 'n': 200})
     for i in range(48 if tier == 'quick' else 600):
         cs.append({'kind': 'e2e', 'seed': seed * 104729 + i, 'zero': i % 3 == 2})
+    # wide layers (33..72 channels): the NE16 model works on tiles of 16 / 32 channels, so only
+    # these can make a multi-step promotion (two precisions gaining channels) the cheapest move
+    for i in range(48 if tier == 'quick' else 400):
+        cs.append({'kind': 'e2e', 'seed': seed * 15485863 + i, 'zero': i % 3 == 2, 'wide': True})
     return cs
 
 
@@ -125,6 +129,15 @@ def worker_setup(ctx):
         return res
     U._reassign_precisions = monitored
     _rec['orig'] = orig
+    # every configuration the refinement evaluates, with the cost its own cost model returned
+    orig_cc = U._compute_cost
+
+    def monitored_cc(model, layer, w_theta_alpha_array, cost_fn_map, lname, node):
+        cost = orig_cc(model, layer, w_theta_alpha_array, cost_fn_map, lname, node)
+        _rec.setdefault('evaluated', []).append(
+            (lname, [float(x) for x in w_theta_alpha_array], float(cost)))
+        return cost
+    U._compute_cost = monitored_cc
 
 
 def run_grid(case, ctx):
@@ -188,9 +201,24 @@ def run_random(case, ctx):
     ctx.cls('random-matrices')
 
 
-def ne16_program(rng):
+def ne16_program(rng, wide=False):
     """3x3 / 1x1 convs, depthwise 3x3, linear: the layer kinds the NE16 model covers"""
     from vf.gen import pitgen
+    if wide:
+        b = pitgen.Builder(rng, '2d', {'max_c': 72})
+        c0 = rng.randint(1, 3)
+        H = W = rng.randint(3, 5)
+        b.shapes['x0'] = (c0, H, W)
+        b.origin['x0'] = 'input'
+        t = b.conv('x0', cout=rng.randint(33, 72), k=rng.choice([1, 3]), d=1, s=1, pad='same')
+        t = b.act(t, 'relu_mod')
+        if rng.random() < 0.5:
+            t = b.conv(t, cout=rng.randint(33, 72), k=rng.choice([1, 3]), d=1, s=1, pad='same')
+            t = b.act(t, 'relu_mod')
+        t = b.flat(b.pool(t, 'aavg'))
+        t = b.lin(t, fout=rng.randint(2, 4))
+        return {'family': '2d', 'inputs': [[c0, H, W]], 'ops': b.ops, 'out': t, 'excluded': [],
+                'features': sorted(b.features) + ['wide'], 'traits': []}
     for _ in range(50):
         b = pitgen.Builder(rng, '2d', {'max_c': 10})
         c0 = rng.randint(1, 3)
@@ -226,7 +254,7 @@ def run_e2e(case, ctx):
     from plinio.cost import ne16_latency
     from plinio.methods.mps.utils import optimize_prec_assignment
     rng = random.Random(case['seed'])
-    prog = ne16_program(rng)
+    prog = ne16_program(rng, wide=bool(case.get('wide')))
     w_prec = rng.choice([(2, 4, 8), (8, 4, 2), (4, 8), (2, 8)])
     if case['zero']:
         w_prec = (0,) + tuple(w_prec)
@@ -246,6 +274,7 @@ def run_e2e(case, ctx):
         mps(mps._input_example)
         cost_before = float(mps.get_cost('ne16'))
     _rec['calls'].clear()
+    _rec['evaluated'] = []
     buf = io.StringIO()
     try:
         with contextlib.redirect_stdout(buf):
@@ -313,6 +342,24 @@ def run_e2e(case, ctx):
                 [chosen[p] for p in qprec] == [oc[i] for i in order] and \
                 [chosen[p] for p in qprec] != oc
             any_flags.append(flags)
+            # "the counts the refinement chose": among all the configurations it evaluated for this
+            # layer (the original one first), the one it applies is a cheapest one
+            ev = {}
+            for ln, fr, cst in _rec.get('evaluated', []):
+                if ln != name or sum(fr) <= 0:
+                    continue
+                cnt = tuple(int(round(f * len(b) / sum(fr))) for f in fr)
+                ev[cnt] = min(cst, ev.get(cnt, float('inf')))
+            if ev and flags['targets_valid']:
+                ctx.mon('c20.chosen_is_cheapest')
+                ch = tuple(chosen[p] for p in qprec)
+                cheapest = min(ev.values())
+                if ch not in ev or ev[ch] > cheapest * (1 + 1e-6) + 1e-9:
+                    ctx.violation('chosen-not-cheapest', dict(
+                        flags, sig='chosen-not-cheapest', layer=name, chosen=chosen,
+                        chosen_cost=ev.get(ch), cheapest_evaluated=cheapest,
+                        cheapest_counts=[list(k) for k, v in ev.items() if v == cheapest][:2],
+                        n_evaluated=len(ev)))
             if got != chosen:
                 ctx.violation('layer-counts', dict(flags, sig='layer-counts', layer=name,
                                                    chosen=chosen, after=got))
@@ -344,7 +391,8 @@ def run_e2e(case, ctx):
                 1 for f in any_flags if f['chosen_is_sort_permutation_of_original'])})
     if changed:
         ctx.nontriv(('e2e', case['seed']))
-    ctx.cls('e2e-' + ('zero' if case['zero'] else 'nozero') + ('-changed' if changed else ''))
+    ctx.cls('e2e-' + ('wide-' if case.get('wide') else '') + ('zero' if case['zero'] else 'nozero') +
+            ('-changed' if changed else ''))
     ctx.sample({'kind': 'e2e', 'w_prec': w_prec, 'features': prog['features'],
                 'cost_before': cost_before, 'cost_after': cost_after,
                 'bits_before': {k: v for k, v in list(before.items())[:3]},
